@@ -44,6 +44,9 @@ def run(run, h):
                 for start in ("sign", "crafted"):
                     for mkind in ("edge", "zeroexp"):
                         chain_case(run, h, batch, rng, key, start, mkind)
+                # whole-tuple special shapes: every entry 0, every entry the same value, exactly one non-zero entry
+                for mkind in ("all_zero", "all_equal", "one_nonzero"):
+                    chain_case(run, h, batch, rng, key, rng.choice(["sign", "crafted"]), mkind)
                 blind_case(run, h, batch, rng, key)
     batch.flush()
 
@@ -51,6 +54,13 @@ def run(run, h):
 def message(rng, key, mkind):
     n = key["n"]
     ms = [rand_scalar(rng, 0.6) for _ in range(n)]
+    if mkind == "all_zero":
+        ms = [0] * n
+    elif mkind == "all_equal":
+        ms = [rng.choice([1, Q - 1, rand_nz(rng)])] * n
+    elif mkind == "one_nonzero":
+        ms = [0] * n
+        ms[rng.randrange(n)] = rand_nz(rng)
     if mkind == "zeroexp":
         # solve x + <y, m> = 0 for the last coordinate
         partial = (key["x"] + ipq(key["ys"][:-1], ms[:-1])) % Q
@@ -164,15 +174,17 @@ def chain_case(run, h, batch, rng, key, start, mkind):
     # several coordinates at once: two coordinates exchanged / value moved between two coordinates with the sum preserved
     # (rejected whenever <y, m - m'> != 0, which holds for independently drawn exponents; the model decides the expectation)
     if n >= 2:
-        i, j = rng.sample(coords, 2) if len(coords) >= 2 else (0, 1)
-        dlt = rng.choice([1, rand_nz(rng)])
-        moved = list(ms)
-        moved[i], moved[j] = (ms[i] + dlt) % Q, (ms[j] - dlt) % Q
-        swapped = list(ms)
-        swapped[i], swapped[j] = ms[j], ms[i]
-        for nm, ms2 in (("move:%d>%d" % (j, i), moved), ("swap:%d,%d" % (i, j), swapped)):
-            if ms2 != ms:
-                verify_q(nm, key["pk"], key["pk_hex"], ms2, must_reject=final_valid)
+        cl = list(coords)
+        pairs = [(i, j) for i in cl for j in cl if i < j] if n <= 5 else [tuple(rng.sample(cl, 2))]
+        for i, j in pairs:          # short tuples: EVERY pair of coordinates
+            dlt = rng.choice([1, rand_nz(rng)])
+            moved = list(ms)
+            moved[i], moved[j] = (ms[i] + dlt) % Q, (ms[j] - dlt) % Q
+            swapped = list(ms)
+            swapped[i], swapped[j] = ms[j], ms[i]
+            for nm, ms2 in (("move:%d>%d" % (j, i), moved), ("swap:%d,%d" % (i, j), swapped)):
+                if ms2 != ms:
+                    verify_q(nm, key["pk"], key["pk_hex"], ms2, must_reject=final_valid)
     # key element changes
     pk = key["pk"]
     pk2 = dict(pk, x2=(pk["x2"] + rand_nz(rng)) % Q)
